@@ -147,7 +147,7 @@ def derive_child(xkey: str, index: int) -> str:
     if not xkey.startswith("xprv") and not xkey.startswith("xpub"):
         raise ValueError(f"must be xprv or xpub: {xkey}")
 
-    decoded_ = base58check_decode(xkey)
+    decoded_ = base58check_decode(xkey.encode("ascii"))
     version = decoded_[:4]
     if version not in [
         bip32.VERSION_PRIVATE_MAINNET,
